@@ -7,8 +7,12 @@ C12 driver.
                                             function in file order, its directives directly above it)
   accept-verbatim <cfg> <file> <output-hex> → ok | bad-… (first line = generated-code comment with the tool name /
                                             command line as given; every declaration = Stub() up to layout)
+  cli <cwd-base-hex> <n> arg-hex*          → err | pkg=<hex or -> out=<dest> stubs=<dest>   (the configuration layer:
+                                            flag.Parse of the command line on build.NewFlags, Flags.Config; the package
+                                            clause a stub file gets — `-` when no stub file is written — and where the
+                                            assembly and the stub file go; dest = none | stdout | file:<name-hex>)
   accept-cons <file> <asm-hex> <stub-hex> → ok | bad-…  (both outputs carry the same constraint lines)
-  accept-gostub <verdict> …, accept-build <verdict> … → ok iff the harness measured `ok`
+  accept-gostub <verdict> …, accept-cli <verdict> …, accept-build <verdict> … → ok iff the harness measured `ok`
                                             (go/parser, go/types, go/format; go list/build/vet/link)
 
 Request encoding (harness/c12enc.go):
@@ -66,6 +70,11 @@ def fileTok : P File := fun ts => do
 
 def hexTxt (t : Txt) : String := hexStr (String.ofList t)
 
+def destStr : Dest → String
+  | .none => "none"
+  | .stdout => "stdout"
+  | .file n => "file:" ++ hexTxt n
+
 def handle : Handler
   | "stubs" :: ts => do
     let (cfg, ts) ← cfgTok ts
@@ -85,6 +94,16 @@ def handle : Handler
     let (f, ts) ← fileTok ts
     let (out, _) ← txtTok ts
     some (acceptVerbatim cfg f out)
+  | "cli" :: ts => do
+    let (cwd, ts) ← txtTok ts
+    let (args, _) ← listOf txtTok ts
+    some (match parseArgs args CliFlags.init with
+      | none => "err"
+      | some fl =>
+        let pkg := match fl.stubs with
+          | .none => "-"
+          | _ => hexTxt (cliPkg cwd fl)
+        "pkg=" ++ pkg ++ " out=" ++ destStr fl.out ++ " stubs=" ++ destStr fl.stubs)
   | "accept-cons" :: ts => do
     let (f, ts) ← fileTok ts
     let (a, ts) ← txtTok ts
@@ -92,10 +111,11 @@ def handle : Handler
     some (acceptCons f a s)
   -- verdicts measured by the harness with the Go toolchain
   | "accept-gostub" :: r :: _ => some (if r == "ok" then "ok" else "bad-go-toolchain-rejects " ++ r)
+  | "accept-cli" :: r :: _ => some (if r == "ok" then "ok" else "bad-cli " ++ r)
   | "accept-build" :: r :: _ => some (if r == "ok" then "ok" else "bad-build " ++ r)
   | _ => none
 
 def handlers : List (String × Handler) :=
-  ["stubs", "wf-stubs", "accept-stubs", "accept-verbatim", "accept-cons", "accept-gostub", "accept-build"].map (·, handle)
+  ["stubs", "wf-stubs", "cli", "accept-stubs", "accept-verbatim", "accept-cons", "accept-gostub", "accept-cli", "accept-build"].map (·, handle)
 
 end Avo.Drv.C12
